@@ -1,5 +1,7 @@
 package main
 
+import "encoding/json"
+
 const c08Rule = "fault enumeration: seeded documents (1..3 conjunctions over a default, a pattern and a range field, incl. all-negative and empty conjunctions) x every expression position replaced by an unparseable value of that container's kind (default: bool / map / nested list / nil / lists with one unparseable element in last, first or middle position; pattern: integer / list with a non-string; range: non-numeric string, typed and untyped lists with one non-numeric element, ill-typed or reversed between pair, malformed description, unknown operator) x {include, exclude} x {skip, error, panic(recovered)} x {k-groups, compact}, followed by queries that would match the bad conjunction had it left a trace (empty assignment, an assignment hitting its includes and avoiding its excludes) and by ordinary queries; plus documents rejected outright (no conjunction, 256 conjunctions, id out of range). Posting-list contents are compared through the hook. Non-trivial = the faulty document has another conjunction or a neighbour that some query matches; distinct = distinct input"
 
 func badValues(cont string) []TV {
@@ -20,6 +22,7 @@ func badValues(cont string) []TV {
 func init() {
 	props["C08"] = &propDef{
 		header:    "From BE Require Import Corr.CheckC08.",
+		headers:   map[string]string{"C": "From BE Require Import Corr.CheckCache."},
 		rule:      c08Rule,
 		shardSize: 60,
 		gen: func(tier string, r *Rand, add func(in interface{})) {
@@ -143,7 +146,41 @@ func init() {
 					add(c)
 				}
 			}
+			// builds with a cache provider: under Skip / Error / Panic an unparseable conjunction next to conjunctions
+			// that the warm builds serve from the cache (before them, between them, after them)
+			for _, pol := range []string{"skip", "error", "panic"} {
+				for _, kind := range []string{"kgroups", "compact"} {
+					ints := func(k, off int) TV {
+						l := make([]TV, k)
+						for i := range l {
+							l[i] = tvInt("int", int64(off+i))
+						}
+						return tvSlice("[]int", l...)
+					}
+					bad := eConj{{F: 3, Inc: true, V: TV{T: "other:map"}}}
+					c := eCase{Kind: kind, Policy: pol}
+					c.Docs = []eDoc{
+						{ID: 1, Cons: []eConj{bad, {{F: 0, Inc: true, V: ints(5, 0)}}, {{F: 0, Inc: false, V: ints(4, 0)}, {F: 3, Inc: true, V: tvStr("x")}}, bad, {{F: 3, Inc: true, V: tvStr("y")}}}},
+						{ID: 2, Cons: []eConj{{{F: 0, Inc: true, V: ints(6, 0)}}, bad}},
+						{ID: 3, Cons: []eConj{{{F: 0, Inc: true, V: ints(5, 3)}}}},
+					}
+					for _, a := range []int64{0, 3, 4, 5, 7, 9} {
+						c.Queries = append(c.Queries, eQuery{A: []eAssign{{F: 0, V: tvInt("int", a)}}}, eQuery{A: []eAssign{{F: 0, V: tvInt("int", a)}, {F: 3, V: tvStr("x")}}})
+					}
+					c.Queries = append(c.Queries, eQuery{A: []eAssign{{F: 3, V: tvStr("y")}}}, eQuery{})
+					add(cacheIn{Cache: true, Case: c, Thr: 2, Seed: 61, MissPct: 0, DropPct: 0})
+				}
+			}
 		},
-		exec: execE2E,
+		exec: func(raw json.RawMessage) (execResult, error) {
+			var probe struct {
+				Cache bool `json:"cache"`
+			}
+			json.Unmarshal(raw, &probe)
+			if probe.Cache {
+				return execCache(raw)
+			}
+			return execE2E(raw)
+		},
 	}
 }
